@@ -62,6 +62,8 @@ type E7Spec struct {
 	DroppedError  []DroppedErrorSpec `json:"dropped_error"`
 	SaveRestore   []FuncRuleSpec     `json:"save_restore"`
 	SizeGate      []FuncRuleSpec     `json:"size_gate"`
+	StaleCopy     []FuncRuleSpec     `json:"stale_copy"`
+	FieldStores   []FieldStoreSpec   `json:"forbidden_field_stores"`
 }
 
 type FuncRuleSpec struct {
@@ -232,6 +234,12 @@ func runE7(p *Program, sp *Spec, c *Collector) {
 	}
 	for _, sg := range t.SizeGate {
 		runSizeGate(p, c, sg)
+	}
+	for _, sc := range t.StaleCopy {
+		runStaleCopy(p, c, sc)
+	}
+	for _, fs := range t.FieldStores {
+		runForbiddenFieldStore(p, c, fs)
 	}
 	for _, n := range t.NoExit {
 		runNoExit(p, sp, c, n)
@@ -3414,8 +3422,8 @@ func runInPlaceFilter(p *Program, c *Collector, a FuncRuleSpec) {
 				if _, isSlice := sl.X.Type().Underlying().(*types.Slice); !isSlice {
 					continue
 				}
-				hi, ok := constInt(sl.High)
-				if sl.High == nil || !ok || hi != 0 {
+				// a prefix of the list (xs[:0], xs[:i], xs[:i+1]) keeps the backing array: growing it overwrites what stood behind
+				if sl.High == nil || sl.Max != nil {
 					continue
 				}
 				// the source is not allocated by this function
